@@ -65,10 +65,13 @@ class Model(object):
             t = self.t[k]
             keyf = fs_key if k == 'flowspec' else vpn_key
             if op.get('withdraw_routes'):
+                # the withdrawn routes may be of the other tracked family (MP_REACH of one, MP_UNREACH of the other)
+                wk = op.get('wd_kind', k)
+                tw, keyw = self.t[wk], (fs_key if wk == 'flowspec' else vpn_key)
                 for r in op['withdraw_routes']:
-                    if keyf(r) in t:
-                        del t[keyf(r)]
-                        changed.add(k)
+                    if keyw(r) in tw:
+                        del tw[keyw(r)]
+                        changed.add(wk)
             for r in op.get('routes', []):
                 # (NEXT_HOP is among the attributes of the message only when classic IPv4 prefixes travel with it)
                 a = gen.norm(dict({str(k_): v_ for k_, v_ in op['attr'].items()}, nexthop=op.get('nexthop'), with_next_hop=bool(op.get('nlri'))))
@@ -91,9 +94,10 @@ def encode(op):
         attrs[14] = {'afi_safi': afi_safi, 'nexthop': nh, 'nlri': op['routes']}
     if op.get('withdraw_routes'):
         wr = op['withdraw_routes']
-        if op['kind'] == 'mpls_vpn':
+        wk = op.get('wd_kind', op['kind'])
+        if wk == 'mpls_vpn':
             wr = [dict(r, label=[524288]) for r in wr]
-        attrs[15] = {'afi_safi': afi_safi, 'withdraw': wr}
+        attrs[15] = {'afi_safi': [1, 133] if wk == 'flowspec' else [1, 128], 'withdraw': wr}
     if op.get('nlri'):
         attrs.update(op['attr'])
     return refenc.update(attrs, op.get('nlri'), op.get('withdraw'), asn4=True)
@@ -116,7 +120,8 @@ def rest_post(op):
         nh = '' if op['kind'] == 'flowspec' else {'rd': '0:0', 'str': op['nexthop']}
         attrs['14'] = {'afi_safi': afi_safi, 'nexthop': nh, 'nlri': [{str(k): v for k, v in r.items()} for r in op['routes']]}
     if op.get('withdraw_routes'):
-        attrs['15'] = {'afi_safi': afi_safi, 'withdraw': [{str(k): v for k, v in r.items()} for r in op['withdraw_routes']]}
+        wk = op.get('wd_kind', op['kind'])
+        attrs['15'] = {'afi_safi': [1, 133] if wk == 'flowspec' else [1, 128], 'withdraw': [{str(k): v for k, v in r.items()} for r in op['withdraw_routes']]}
     return {'attr': attrs}
 
 
@@ -163,6 +168,10 @@ def random_op(rng):
         # MP_UNREACH and MP_REACH of the same family in one UPDATE (different routes)
         both = rng.sample(pool, 2)
         op['routes'], op['withdraw_routes'] = [both[0]], [both[1]]
+    if op.get('routes') and rng.random() < 0.2:
+        # MP_REACH of this family with MP_UNREACH of the other tracked family in one UPDATE
+        op['wd_kind'] = 'mpls_vpn' if k == 'flowspec' else 'flowspec'
+        op['withdraw_routes'] = rng.sample(VPN if k == 'flowspec' else FS, rng.choice([1, 2]))
     if rng.random() < 0.2:
         # classic IPv4 prefixes travelling in the same UPDATE as the MP attribute (receive side)
         op['dironly'] = 'recv'
@@ -376,7 +385,7 @@ def replay(rep):
         if 'attr' in op:
             op['attr'] = {int(k): v for k, v in op['attr'].items()}
         for key in ('routes', 'withdraw_routes'):
-            if op.get(key) and op['kind'] == 'flowspec':
+            if op.get(key) and (op['kind'] if key == 'routes' else op.get('wd_kind', op['kind'])) == 'flowspec':
                 op[key] = [{int(k): v for k, v in r_.items()} for r_ in op[key]]
         r.step(op, rep['ops'][:j + 1])
     return list(V.values())
